@@ -225,9 +225,10 @@ class PostProcessor:
             # strip invalid characters not allowed in postscript glyph names
             if name != prod_name:
                 valid_name = self.GLYPH_NAME_INVALID_CHARS.sub("", prod_name)
-                if len(valid_name) > self.MAX_GLYPH_NAME_LENGTH:
-                    # if the length of the generated production name is too
-                    # long, try to fall back to the original name
+                if not valid_name or len(valid_name) > self.MAX_GLYPH_NAME_LENGTH:
+                    # if the generated production name is too long, or nothing is
+                    # left of it once the invalid characters are stripped, try to
+                    # fall back to the original name
                     valid_name = self.GLYPH_NAME_INVALID_CHARS.sub("", name)
             else:
                 valid_name = self.GLYPH_NAME_INVALID_CHARS.sub("", name)
